@@ -194,6 +194,15 @@ def run(ctx, chk):
     ]
     ents = entries(prog)
     chk.floor("R2.1", "public authenticated-open entry points", len(ents), 45)
+    analyse(prog, chk, ents)
+
+
+def analyse(prog, chk, ents, prefix="R2", floors=True):
+    """R2.1-R2.5 over the given entry points and everything they delegate to. `prefix` renames the
+    rule ids when another property re-uses these rules on its own entry set."""
+    cg = prog.callgraph()
+    R = lambda s: s.replace("R2", prefix, 1) if prefix != "R2" else s
+    _floor = chk.floor if floors else (lambda *a, **k: None)
     auth = Auth(prog, chk)
 
     # ---- R2.1 / R2.2 / R2.6 ---------------------------------------------------------------
@@ -205,22 +214,22 @@ def run(ctx, chk):
             ok = True
             detail = "%s; compared length(s) %s; tag rooted at parameter(s) %s" % (
                 s["kind"], sorted(map(str, s["lens"])), sorted(fn.params[i]["name"] for i in s["tagp"]))
-            chk.ob("R2.1", fn, "success exit => authenticator comparison passed", True, detail=detail)
+            chk.ob(R("R2.1"), fn, "success exit => authenticator comparison passed", True, detail=detail)
             if want is not None and s.get("nsucc", 0) > 0:
-                chk.ob("R2.1-len", fn, "compared length == %d (header constant of the family)" % want,
+                chk.ob(R("R2.1-len"), fn, "compared length == %d (header constant of the family)" % want,
                        s["lens"] == {want}, detail="compared %s" % sorted(map(str, s["lens"])),
-                       key="R2.1-len %s" % fn.name)
+                       key=R("R2.1-len %s") % fn.name)
         else:
             for loc, msg, p in s["why"][:3]:
-                chk.ob("R2.1", fn, "success exit => authenticator comparison passed", False, loc=loc,
-                       detail=msg, path=p, key="R2.1 %s" % fn.name)
+                chk.ob(R("R2.1"), fn, "success exit => authenticator comparison passed", False, loc=loc,
+                       detail=msg, path=p, key=R("R2.1 %s") % fn.name)
     # discovered callees that were needed and failed are reported through their callers above;
     # count distinct cores for the floor
     closure = auth_closure(prog, auth, ents)
     for (key, bind), s in auth.memo.items():
         if s and s["ok"] and "core" in s["kind"]:
             ncore += 1
-    chk.floor("R2.1", "distinct authenticator cores (function x constant bindings)", ncore, 15)
+    _floor(R("R2.1"), "distinct authenticator cores (function x constant bindings)", ncore, 15)
     chk.analysed["functions shown to authenticate before success"] = len(closure)
 
     # ---- R2.3 / R2.4 / R2.5 over the closure --------------------------------------------------
@@ -243,10 +252,10 @@ def run(ctx, chk):
                             n23 += 1
                             fb = p.facts_before(e.idx)
                             ok = fb.truth(T.mk_icmp("uge", a[2], a[3])) is True
-                            chk.ob("R2.3", fn, "length %s passed to %s cannot wrap (input >= %d was tested)"
+                            chk.ob(R("R2.3"), fn, "length %s passed to %s cannot wrap (input >= %d was tested)"
                                    % (T.show(a, fn), e.callee_name() or "slot", a[3][1]), ok,
                                    loc=fn.loc(e.iid), path=None if ok else p,
-                                   key="R2.3 %s" % fn.name)
+                                   key=R("R2.3 %s") % fn.name)
                 if not p.may_return_nonzero():
                     continue
                 fnz = p.facts.copy()
@@ -263,16 +272,16 @@ def run(ctx, chk):
                         ok = p.facts.zeroness(root) == "Z" or not any(
                             e.kind == "store" and e.addr == root for q in ps for e in q.events)
                         # the function never stores through it at all => it is not a reported length
-                        chk.ob("R2.4", fn, "failing exit: *%s is 0 (or %s is NULL)" % (fn.params[i]["name"], fn.params[i]["name"]),
+                        chk.ob(R("R2.4"), fn, "failing exit: *%s is 0 (or %s is NULL)" % (fn.params[i]["name"], fn.params[i]["name"]),
                                ok, loc=fn.loc(p.end_iid),
                                detail="pointer is NULL on this path" if ok else "no store on this path and pointer not known NULL",
-                               path=None if ok else p, key="R2.4 %s" % fn.name)
+                               path=None if ok else p, key=R("R2.4 %s") % fn.name)
                     else:
                         v = last.val
                         ok = fnz.zeroness(v) == "Z"
-                        chk.ob("R2.4", fn, "failing exit: last store to *%s is 0" % fn.params[i]["name"], ok,
+                        chk.ob(R("R2.4"), fn, "failing exit: last store to *%s is 0" % fn.params[i]["name"], ok,
                                loc=fn.loc(last.iid), detail="stored %s" % T.show(v, fn),
-                               path=None if ok else p, key="R2.4 %s" % fn.name)
+                               path=None if ok else p, key=R("R2.4 %s") % fn.name)
                 # R2.5
                 for i in outptrs:
                     root = ("arg", i)
@@ -296,11 +305,11 @@ def run(ctx, chk):
                             dirty = e
                     n25 += 1
                     ok = dirty is None
-                    chk.ob("R2.5", fn, "failing exit: no data-dependent write to %s survives"
+                    chk.ob(R("R2.5"), fn, "failing exit: no data-dependent write to %s survives"
                            % fn.params[i]["name"], ok,
                            loc=fn.loc(dirty.iid) if dirty else fn.loc(p.end_iid),
                            detail="" if ok else "write at %s is not followed by a constant fill before the failing return"
-                           % fn.loc(dirty.iid), path=None if ok else p, key="R2.5 %s" % fn.name)
-    chk.floor("R2.3", "shortened-length call sites", n23, 20)
-    chk.floor("R2.4", "failing exits with a length out-parameter", n24, 20)
-    chk.floor("R2.5", "failing exits x output parameters", n25, 60)
+                           % fn.loc(dirty.iid), path=None if ok else p, key=R("R2.5 %s") % fn.name)
+    _floor(R("R2.3"), "shortened-length call sites", n23, 20)
+    _floor(R("R2.4"), "failing exits with a length out-parameter", n24, 20)
+    _floor(R("R2.5"), "failing exits x output parameters", n25, 60)
